@@ -181,6 +181,7 @@ func init() {
 		"vKnownOpen": func(e *Exec, c *frame, fn *ssa.Function, a []Value) Value {
 			return sym.Bool(e.M.Known[e.strArg(a[0])])
 		},
+		"vAllocCheck": func(e *Exec, c *frame, fn *ssa.Function, a []Value) Value { return nil },
 		"vRaceMode": func(e *Exec, c *frame, fn *ssa.Function, a []Value) Value { return sym.Bool(false) },
 		"vSymbolic": func(e *Exec, c *frame, fn *ssa.Function, a []Value) Value { return sym.Bool(true) },
 		"vConc": func(e *Exec, c *frame, fn *ssa.Function, a []Value) Value {
